@@ -194,6 +194,7 @@ def run(ctx):
             "compile_verdict_per_route": pat_outcome_by_route,
             "patterns_accepted_per_scrutinee_type_at_top_of_a_match_on_some_route": {k: sorted(v) for k, v in sorted(pat_accept.items())},
             "outcomes": outcomes.get("pat-scrut", {}),
+        },
         "fuel_limit_catalogue": {
             "what": "the fuel-limit catalogue of C12 (harness/src/c12.rs::fuel_limit_inputs, sized from the fuel measured on the real parser: "
                     "lookahead-only scans, frames that look while they unwind, consuming loops, followers of an out-of-fuel construct), restricted "
